@@ -8,6 +8,7 @@ EXPLANATION = ('Contracts on the real BeamCXLine / BeamEmissionLine / Plasma bod
                'the line shape, loop invariants tying the composite CX rate, the beam population and the beam-emission rate to '
                'recursively defined ghost sums (which are the documented expressions), call arguments of every rate; induction '
                'lemmas: the composite rate lies between the smallest and largest coefficient.')
+EXPLANATION += '  BeamCXLine._populate_cache: an arbitrary iteration of the rate loop (each excited rate gets its own freshly allocated population list with exactly one pair per plasma species).'
 CX = "cherab/core/model/beam/charge_exchange.pyx"
 BE = "cherab/core/model/beam/beam_emission.pyx"
 PL = "cherab/core/plasma/node.pyx"
